@@ -174,6 +174,9 @@ def run(chk, only=None):
             inputs.append(t.encode())
         for _ in range(100 if quick else 1000):
             inputs.append("\n".join(rng.choice(tus) for _ in range(rng.randint(2, 5))).encode("utf-8", "replace"))
+        import declgen
+        for u in declgen.units(rng, 500 if quick else 10000):
+            inputs.append(u.encode())
         inputs += [s.encode() for s in [
             "typedef T T; T x;", "typedef A B; typedef B A; A x; B *y;", "void f(T x);", "void f(int);", "void f(int, double, T);", "void (*p)(int);", "typedef int T; void f(T);",
             "void g(void (*cb)(int, T), int (*)[3]);", "void f(void){ typedef T1 *T1; T1 v; }", "struct s { struct s x; } v;", "struct a { struct b y; }; struct b { struct a x; }; struct a v;",
@@ -181,9 +184,20 @@ def run(chk, only=None):
             "int *a; typedef int T; T *b; int h(void){ return a == b; }", "T x = y;", "int f(x, y) int x; { return x + y; }", "int f(); int f(a) T a; { return a; }", "x;", "f(){}", "int a[]; int a[3];",
             "struct { int a; } x, y; int f(void){ return x.a + y.b; }", "typedef struct s T; struct s { T *next; }; T v;", "int f(void){ return sizeof(T) + sizeof(struct q) + (U)1; }",
             "void f(void){ goto l; l: ; { int l; } }", "int f(void){ return ({ int y = 1; y; }); }", "_Static_assert(1, \"x\"); _Alignas(8) int z; _Thread_local int t;",
+            "void f(enum { E } e);", "void f(struct { int m; } e);", "struct S { int x, : 3; };", "typedef int T; struct A { struct { void (*cb)(T x); }; };",
+            "int a __attribute__((aligned(sizeof(int*)))), b;", "int h(p) struct R { int a; } p; { return p.a; }", "int x = sizeof(struct { int a; });", "void f(int (*p)(struct Q { int z; } w), int k);",
             "int f(int n){ int a[n]; return a[0]; }", "int x = 1 ? 2 : (T)3;", "void f(void){ T * x; x = 0; }", "int f(void){ return u.v.w->x[1](2); }"]]
     flavours = ["plain", "asan", "asan-ndebug"]
     plan = []
+    # the witnesses of the defects repaired so far (known_findings.json, "fixed"): first, in every flavour
+    if not only:
+        for e in pv.known_findings().get("fixed", []):
+            w = (e.get("witness") or "").split()
+            if e.get("property") == "C02" and len(w) == 3 and w[0] == "walk":
+                try:
+                    plan += [(fl, w[1], bytes.fromhex(w[2])) for fl in flavours]
+                except ValueError:
+                    pass
     for i, t in enumerate(inputs):
         if only:
             for fl in flavours:
@@ -211,7 +225,9 @@ def run(chk, only=None):
                 if "SYNTAX" in a:
                     shapes["ok_with_syntax_errors"] += 1
                 m = re.search(r"nulls=(\d+)", a)
-                if m and int(m.group(1)) > 0:
+                # a declaration without a type object, or a declared typedef name without its (resolved) synonym: demanded of units that parse
+                # without syntax errors only (after a syntax error in the very declaration an absent result is an answer, not a fault)
+                if m and int(m.group(1)) > 0 and "SYNTAX" not in a:
                     bad.append((t, fl, o, "null-type-reachable", a[:200]))
             elif a.startswith("LIMIT") or a.startswith("EXC maximum depth"):
                 pass
@@ -222,7 +238,7 @@ def run(chk, only=None):
     dist["requests_per_flavour"] = {fl: sum(1 for p in plan if p[0] == fl) for fl in flavours}
     chk.coverage["evaluations"] = n_expl + dist.get("cyclic_resolutions_compared", 0)
     chk.coverage["distinct_nontrivial"] = len({t for t in inputs if len(t) >= 8})
-    chk.coverage["rule"] = ("translation units: the %d whole-unit snippets of the repository's tests, token mutants of them, concatenations, generated typedef programs (incl. redeclaration after use), generated CYCLIC "
+    chk.coverage["rule"] = ("translation units: the %d whole-unit snippets of the repository's tests, token mutants of them, concatenations, generated typedef programs (incl. redeclaration after use), declaration-centred random units of gen/declgen.py (specifiers of every form in every position, nested declarators, bit-fields, anonymous members, tags declared in parameter lists and type names, attributes, statement expressions), the witnesses of every repaired defect, generated CYCLIC "
                             "typedef graphs with undefined names, hand-picked incomplete programs (self-referential typedefs and tags, unnamed/unknown-typed parameters, K&R, statement expressions, VLAs). "
                             "Each: parse, computeSemanticModel, then the full walk of harness/h_walk.cpp, in the plain build and a share under ASan+UBSan with/without NDEBUG; a crash, sanitizer report, timeout (20 s) "
                             "or exception is a failure, shrunk before it is reported. non-trivial = at least 8 bytes" % len(tus))
@@ -238,19 +254,15 @@ def run(chk, only=None):
         return a.split()[0].lower() if a else "empty"
 
     def shrink(t, fl, o, c):
-        cur = t
-        for unit in ("tok", "byte"):
-            for _ in range(10):
-                parts = cur.split() if unit == "tok" else [cur[i:i + 1] for i in range(len(cur))]
-                if len(parts) <= 1 or len(parts) > 80:
-                    break
-                sep = b" " if unit == "tok" else b""
-                cands = [sep.join(parts[:i] + parts[i + 1:]) for i in range(len(parts))]
-                ans = pv.run_impl(["walk %s %s" % (o, hexof(x)) for x in cands], flavour=fl, shards=pv.NCPU, limit=10)
-                nxt = [x for x, a in zip(cands, ans) if cls(a) == c]
-                if not nxt:
-                    break
-                cur = min(nxt, key=len)
+        def fb(sep):
+            return lambda texts: [cls(a) == c for a in pv.run_impl(["walk %s %s" % (o, hexof(x)) for x in texts], flavour=fl, shards=pv.NCPU, limit=10)]
+        # tokens first (identifiers, numbers, single punctuators), then bytes
+        toks = re.findall(rb"[A-Za-z_$][A-Za-z0-9_$]*|[0-9][0-9A-Za-z.]*|\"[^\"\n]*\"|'[^'\n]*'|\S", t)
+        if b" ".join(toks) != t and not fb(b" ")([b" ".join(toks)])[0]:
+            toks = t.split()
+        cur = b" ".join(pv.ddmin(toks, fb(b" "), lambda ps: b" ".join(ps)))
+        if len(cur) <= 120:
+            cur = b"".join(pv.ddmin([cur[i:i + 1] for i in range(len(cur))], fb(b""), lambda ps: b"".join(ps)))
         return cur
     seen = set()
     bad.sort(key=lambda x: len(x[0]))
